@@ -202,6 +202,9 @@ int32_t carquet_schema_add_group(
     memset(elem, 0, sizeof(*elem));
 
     elem->name = carquet_arena_strdup(&schema->arena, name);
+    if (!elem->name) {
+        return -1;
+    }
     elem->has_type = false;  /* Groups don't have a type */
     elem->has_repetition = true;
     elem->repetition_type = repetition;
